@@ -673,7 +673,8 @@ P["C07"]["units"].append(
         "globals": {"g_lib_fail": "g_lib_fail", "g_p1_calls": "g_p1_calls", "g_add_calls": "g_add_calls", "g_p1_arg_k": "g_p1_arg_k", "g_p1_ret_k": "g_p1_ret_k",
                     "g_add_item_k": "g_add_item_k", "g_seq_k": "g_seq_k", "g_vj_elem": "g_vj_elem", "g_vj_elem_str": "g_vj_elem_str"}}]},
       loop_macro_headers=["contracts/spec.h"],
-      expect=["contract_C07_jwks_process\\.postcondition\\.7", "jwks_process\\.loop_invariant_step", "contract_rec_jwk_process_one\\.precondition"], timeout=900))
+      expect=["contract_C07_jwks_process\\.postcondition\\.7", "jwks_process\\.loop_invariant_step", "contract_rec_jwk_process_one\\.precondition"], timeout=900,
+      unwind_default=3))
 for _fn, _body, _c in (("__jwks_load_strn", "jwk_set_t *s; const char *j; size_t n; int e; __jwks_load_strn(s, j, n, e);", "contract_C07___jwks_load_strn"),
                        ("jwks_load_fromfile", "jwk_set_t *s; const char *f; jwks_load_fromfile(s, f);", "contract_C07_jwks_load_fromfile"),
                        ("jwks_load_fromfp", "jwk_set_t *s; FILE *f; jwks_load_fromfp(s, f);", "contract_C07_jwks_load_fromfp")):
